@@ -111,7 +111,11 @@ func loadProgram(rel string) (*ssa.Program, *ssa.Package, *token.FileSet) {
 		Overlay: ov,
 		Env:     append(os.Environ(), "GOFLAGS=-mod=mod", "GOPROXY=off", "GOSUMDB=off", "GOTOOLCHAIN=local", "CGO_ENABLED=0"),
 	}
+	tl0 := time.Now()
 	pkgs, err := packages.Load(cfg, "./"+rel)
+	if os.Getenv("VSYM_TIMING") != "" {
+		fmt.Fprintf(os.Stderr, "packages.Load: %.2fs\n", time.Since(tl0).Seconds())
+	}
 	if err != nil {
 		fatalf("load: %v", err)
 	}
@@ -127,8 +131,12 @@ func loadProgram(rel string) (*ssa.Program, *ssa.Package, *token.FileSet) {
 	if nerr > 0 {
 		fatalf("%d package load errors (the tree or a harness does not compile)", nerr)
 	}
+	tl := time.Now()
 	prog, spkgs := ssautil.AllPackages(pkgs, ssa.InstantiateGenerics)
-	prog.Build()
+	spkgs[0].Build()
+	if os.Getenv("VSYM_TIMING") != "" {
+		fmt.Fprintf(os.Stderr, "ssa create+build root: %.2fs\n", time.Since(tl).Seconds())
+	}
 	return prog, spkgs[0], fset
 }
 
@@ -159,12 +167,12 @@ type ExecResult struct {
 }
 
 type DiffResult struct {
-	Solver    string `json:"solver"`
-	Checked   int    `json:"checked"`
-	Agree     int    `json:"agree"`
-	Disagree  int    `json:"disagree"`
-	Unknown   int    `json:"unknown"`
-	Seconds   float64 `json:"seconds"`
+	Solver   string  `json:"solver"`
+	Checked  int     `json:"checked"`
+	Agree    int     `json:"agree"`
+	Disagree int     `json:"disagree"`
+	Unknown  int     `json:"unknown"`
+	Seconds  float64 `json:"seconds"`
 }
 
 type FindingJSON struct {
@@ -210,29 +218,68 @@ func cmdExec(args []string) {
 	known := fs.String("known", "", "known_findings.json")
 	second := fs.String("second", "", "second solver for final VCs (cvc5|z3-new)")
 	inputsFile := fs.String("inputs", "", "JSON file with a concrete input vector (differential mode)")
+	jobsFile := fs.String("jobs", "", "JSON file: list of {fn,case,unwind,paths,steps,timeout,out}")
 	fs.Parse(args)
+	type jobT struct {
+		Fn      string           `json:"fn"`
+		Case    map[string]int64 `json:"case"`
+		Unwind  int              `json:"unwind"`
+		Paths   int              `json:"paths"`
+		Steps   int              `json:"steps"`
+		Timeout int              `json:"timeout"`
+		Out     string           `json:"out"`
+	}
+	var jobList []jobT
+	if *jobsFile != "" {
+		jd, err := os.ReadFile(*jobsFile)
+		if err != nil {
+			fatalf("%v", err)
+		}
+		if err := json.Unmarshal(jd, &jobList); err != nil {
+			fatalf("jobs: %v", err)
+		}
+	} else {
+		for _, spec := range strings.Split(*fns, ",") {
+			name := spec
+			caseStr := ""
+			if i := strings.IndexByte(spec, '@'); i >= 0 {
+				name, caseStr = spec[:i], strings.ReplaceAll(spec[i+1:], ";", ",")
+			}
+			jobList = append(jobList, jobT{Fn: name, Case: parseCase(caseStr)})
+		}
+	}
 	t0 := time.Now()
 	prog, pkg, fset := loadProgram(*rel)
 	loadSec := time.Since(t0).Seconds()
 	knownLabels := loadKnown(*known)
 	var results []*ExecResult
-	for _, spec := range strings.Split(*fns, ",") {
-		name := spec
-		caseStr := ""
-		if i := strings.IndexByte(spec, '@'); i >= 0 {
-			name, caseStr = spec[:i], strings.ReplaceAll(spec[i+1:], ";", ",")
+	for _, job := range jobList {
+		name := job.Fn
+		caseStr := caseString(job.Case)
+		uw, mp, ms, to := *unwind, *maxPaths, *maxSteps, *timeout
+		if job.Unwind > 0 {
+			uw = job.Unwind
+		}
+		if job.Paths > 0 {
+			mp = job.Paths
+		}
+		if job.Steps > 0 {
+			ms = job.Steps
+		}
+		if job.Timeout > 0 {
+			to = job.Timeout
 		}
 		fn := pkg.Func(name)
 		if fn == nil {
 			fatalf("no function %s in %s", name, pkg.Pkg.Path())
 		}
 		t1 := time.Now()
-		solver, err := NewSolver("z3", *timeout, *smtlog)
+		solver, err := NewSolver("z3", to, *smtlog)
 		if err != nil {
 			fatalf("solver: %v", err)
 		}
-		ex := &Exec{prog: prog, solver: solver, fset: fset, unwind: *unwind, maxSteps: *maxSteps, maxPaths: *maxPaths,
-			harness: name, caseVals: parseCase(caseStr), verbose: *verbose,
+		ex := &Exec{prog: prog, solver: solver, fset: fset, unwind: uw, maxSteps: ms, maxPaths: mp,
+			harness: name, caseVals: job.Case, verbose: *verbose,
 			PathsEnded: map[string]int{}, Findings: map[string]*Finding{}, Reached: map[string]int{}, ReachSample: map[string]map[string]string{},
 			FuncsEntered: map[string]bool{}, StubsUsed: map[string]int{}, knownLabels: knownLabels}
 		if *inputsFile != "" {
@@ -242,7 +289,7 @@ func cmdExec(args []string) {
 		res := &ExecResult{Harness: name, Case: ex.caseVals, Paths: ex.Paths, PathsEnded: ex.PathsEnded, Branches: ex.Branches,
 			Obligations: ex.Obligations, Discharged: ex.Discharged, Trivial: ex.Trivial, Queries: solver.Queries, CacheHits: solver.CacheHits,
 			SolverSec: solver.Seconds, LoadSec: loadSec, Inconclusive: ex.Inconclusive, Reached: ex.Reached, ReachSamples: ex.ReachSample,
-			Stubs: ex.StubsUsed, SolverErrors: solver.Errors, Unwind: *unwind, Observed: ex.Observed}
+			Stubs: ex.StubsUsed, SolverErrors: solver.Errors, Unwind: uw, Observed: ex.Observed}
 		for f := range ex.FuncsEntered {
 			res.Funcs = append(res.Funcs, f)
 		}
@@ -256,10 +303,17 @@ func cmdExec(args []string) {
 		solver.Close()
 		res.WallSec = time.Since(t1).Seconds()
 		results = append(results, res)
+		if job.Out != "" {
+			jd, _ := json.Marshal(res)
+			os.WriteFile(job.Out, jd, 0o644)
+		}
 		fmt.Fprintf(os.Stderr, "%s%v: paths=%d obligations=%d discharged=%d findings=%d inconclusive=%d queries=%d solver=%.1fs wall=%.1fs\n",
 			name, caseStr, ex.Paths, ex.Obligations, ex.Discharged, len(ex.Findings), len(ex.Inconclusive), solver.Queries, solver.Seconds, res.WallSec)
 	}
 	data, _ := json.MarshalIndent(results, "", " ")
+	if *jobsFile != "" {
+		return
+	}
 	if *out != "" {
 		os.WriteFile(*out, data, 0o644)
 	} else {
@@ -308,6 +362,3 @@ func loadConcrete(path string) map[string]uint64 {
 func (ex *Exec) secondSolver(name string) *DiffResult {
 	return &DiffResult{Solver: name}
 }
-
-func cmdCheck(args []string)  { fatalf("check: not implemented yet") }
-func cmdReplay(args []string) { fatalf("replay: not implemented yet") }
